@@ -112,10 +112,10 @@ ItemText(c, st) ==
   ELSE IF st \in {2, 3} \/ MustEscape(c) THEN (IF c >= 65536 THEN PairOf(c, st = 3) ELSE IF st = 3 THEN U4U(c) ELSE U4(c))
   ELSE <<c>>
 StrText(s, sts) == <<34>> \o Concat([i \in DOMAIN s |-> ItemText(s[i], sts[i])]) \o <<34>>
-CharPool == {97, 34, 92, 47, 10, 9, 0, 31, 127, 128, 233, 8364, 55295, 57344, 65535, 65536, 128512, 1114111, 8, 12, 13, 32}
+CharPool == {97, 34, 92, 47, 10, 9, 0, 31, 127, 128, 233, 8364, 55295, 57344, 65535, 65536, 128512, 1114111, 8, 12, 13, 32, 8232, 8233, 133, 65279}
 StrCases(zzdummy) ==
   LET one == SetToSeq({<<c, st>> : c \in CharPool, st \in 0..3})
-      two == SetToSeq({<<c, d, st>> : c \in {34, 92, 233, 128512, 10, 97}, d \in {34, 92, 65536, 0, 117}, st \in 0..3})
+      two == SetToSeq({<<c, d, st>> : c \in {34, 92, 233, 128512, 10, 97, 13, 8233}, d \in {34, 92, 65536, 0, 117, 10, 13, 8232}, st \in 0..3})      \* (CR LF in both orders; the two separators side by side)
   IN [i \in DOMAIN one |-> [e |-> "json", kind |-> "str", text |-> StrText(<<one[i][1]>>, <<one[i][2]>>), numerals |-> <<>>, classes |-> <<>>]]
      \o [i \in DOMAIN two |-> [e |-> "json", kind |-> "str",
                                text |-> <<123>> \o StrText(<<two[i][1], two[i][2]>>, <<two[i][3], (two[i][3] + 1) % 4>>) \o <<58>>
